@@ -476,8 +476,11 @@ impl Buffer {
             SauceData::default().group.append_to(vec);
         }
 
-        let cur_time = Utc::now();
-        let date_time = cur_time.format("%Y%m%d").to_string();
+        // the date is the creation date of the record: an existing record keeps it, only one without a date gets the current day
+        let date_time = match self.get_sauce() {
+            Some(data) if data.creation_time != NaiveDateTime::default() => data.creation_time.format("%Y%m%d").to_string(),
+            _ => Utc::now().format("%Y%m%d").to_string(),
+        };
         assert_eq!(date_time.len(), 8);
         vec.extend(date_time.bytes());
         vec.extend(u32::to_le_bytes(file_size));
